@@ -642,6 +642,105 @@ fn busy_heartbeat_scenario(r: &mut Report, seed: u64, k: u64) {
     r.count("busy_clients_kept_and_fully_dispatched", 1);
 }
 
+/// The external App has a connection timeout (it governs the wait for an HTTP request, not the WebSocket that the
+/// connection becomes): a healthy client whose fragments - or whose halves of one frame - are further apart than that
+/// timeout is dispatched exactly like a fast one, and is not disconnected.
+fn slow_fragments_scenario(r: &mut Report, seed: u64, k: u64) {
+    let mut rng = Rng::derive(seed, 0x12c0_0000 + k);
+    let timeout_ms = *rng.pick(&[150u64, 250]);
+    let gap_ms = timeout_ms * 2 + 150;
+    let poll: Option<Duration> = *rng.pick(&[None, Some(Duration::from_millis(1)), Some(Duration::from_millis(10))]);
+    let replay = vec!["c12".to_string(), "--seed".into(), seed.to_string(), "--slowfrag".into(), k.to_string()];
+    let port = hvcommon::net::free_port("127.0.0.1");
+    let addr: SocketAddr = format!("127.0.0.1:{}", port).parse().unwrap();
+    let state = Arc::new(St { log: Mutex::new(Vec::new()) });
+    let (ws_tx, ws_rx) = channel();
+    let (app_tx, app_rx) = channel();
+    let mut wsapp: AsyncWebsocketApp<Arc<St>> = AsyncWebsocketApp::new_unlinked_with_config(state.clone(), 2).with_polling_interval(poll).with_shutdown(ws_rx);
+    wsapp.on_connect(|s: AsyncStream, st: Arc<Arc<St>>| {
+        st.log.lock().unwrap().push((Ev::Connect(s.peer_addr()), Instant::now()));
+    });
+    wsapp.on_disconnect(|s: AsyncStream, st: Arc<Arc<St>>| {
+        st.log.lock().unwrap().push((Ev::Disconnect(s.peer_addr()), Instant::now()));
+    });
+    wsapp.on_message(|s: AsyncStream, m: Message, st: Arc<Arc<St>>| {
+        st.log.lock().unwrap().push((Ev::Message(s.peer_addr(), String::from_utf8_lossy(m.bytes()).to_string()), Instant::now()));
+    });
+    let hook = wsapp.connect_hook().unwrap();
+    let app: App<()> = App::new_with_config(2, ()).with_websocket_route("/ws", async_websocket_handler(hook)).with_connection_timeout(Some(Duration::from_millis(timeout_ms))).with_shutdown(app_rx);
+    std::thread::spawn(move || {
+        let _ = app.run(addr);
+    });
+    let (done_tx, done_rx) = channel();
+    std::thread::spawn(move || {
+        wsapp.run();
+        done_tx.send(()).ok();
+    });
+    for _ in 0..400 {
+        if TcpStream::connect(addr).is_ok() {
+            break;
+        }
+        std::thread::sleep(Duration::from_millis(3));
+    }
+    r.eval();
+    r.count("slow_fragment_scenarios", 1);
+    r.nontrivial(0xc000_0000 + k);
+    let (mut a, a_local) = match ws_connect(addr) {
+        Ok(x) => x,
+        Err(e) => {
+            r.inconclusive(format!("slow-fragments scenario: {}", e));
+            return;
+        }
+    };
+    let t = Instant::now();
+    while !state.log.lock().unwrap().iter().any(|(e, _)| *e == Ev::Connect(a_local)) && t.elapsed() < Duration::from_secs(5) {
+        std::thread::sleep(Duration::from_millis(1));
+    }
+    // message 1: three fragments, `gap_ms` apart; message 2: one frame written in two halves `gap_ms` apart; message 3 at once
+    let frag = [RefFrame::new(1, false, Some([1, 2, 3, 4]), b"slow-".to_vec()).encode(), RefFrame::new(0, false, Some([5, 6, 7, 8]), b"frag-".to_vec()).encode(), RefFrame::new(0, true, Some([9, 1, 2, 3]), format!("ments-{}", k).into_bytes()).encode()];
+    let whole = RefFrame::new(1, true, Some([4, 3, 2, 1]), format!("two-halves-{}", k).into_bytes()).encode();
+    let mut pieces: Vec<Vec<u8>> = frag.to_vec();
+    pieces.push(whole[..whole.len() / 2].to_vec());
+    pieces.push(whole[whole.len() / 2..].to_vec());
+    let mut sent_all = true;
+    for (i, p) in pieces.iter().enumerate() {
+        if i > 0 {
+            std::thread::sleep(Duration::from_millis(gap_ms));
+        }
+        if a.s.write_all(p).is_err() {
+            sent_all = false;
+            break;
+        }
+    }
+    let last = RefFrame::new(1, true, Some([7, 7, 7, 7]), format!("END-{}", k).into_bytes()).encode();
+    sent_all = sent_all && a.s.write_all(&last).is_ok();
+    let want = vec![format!("slow-frag-ments-{}", k), format!("two-halves-{}", k), format!("END-{}", k)];
+    let t = Instant::now();
+    let observed = loop {
+        let log = state.log.lock().unwrap();
+        let msgs: Vec<String> = log.iter().filter_map(|(e, _)| match e { Ev::Message(p, m) if *p == a_local => Some(m.clone()), _ => None }).collect();
+        let gone = log.iter().any(|(e, _)| *e == Ev::Disconnect(a_local));
+        drop(log);
+        if msgs.len() >= want.len() || gone || t.elapsed() > Duration::from_secs(8) {
+            break (msgs, gone);
+        }
+        std::thread::sleep(Duration::from_millis(5));
+    };
+    let ex = J::obj(vec![("app_connection_timeout_ms", J::u(timeout_ms)), ("gap_between_pieces_ms", J::u(gap_ms)), ("poll_interval_ms", poll.map(|p| J::u(p.as_millis() as u64)).unwrap_or(J::Null)), ("dispatched", J::arr_s(&observed.0)), ("disconnect_handler_ran", J::Bool(observed.1)), ("client_could_send_everything", J::Bool(sent_all))]);
+    if observed.1 {
+        r.violation("C12/disconnect-of-connected-client", format!("[slow fragments: app connection timeout {} ms, pieces {} ms apart] the disconnect handler ran for a client that never closed; dispatched so far {:?}", timeout_ms, gap_ms, observed.0), ex, replay);
+    } else if observed.0 != want {
+        r.violation("C12/message-lost", format!("[slow fragments: app connection timeout {} ms, pieces {} ms apart] dispatched {:?}, the client sent {:?}", timeout_ms, gap_ms, observed.0, want), ex, replay);
+    } else {
+        r.count("slow_fragment_clients_fully_dispatched", 1);
+    }
+    let _ = a.s.write_all(&RefFrame::new(8, true, Some([1, 1, 1, 1]), vec![0x03, 0xe8]).encode());
+    std::thread::sleep(Duration::from_millis(50));
+    ws_tx.send(()).ok();
+    let _ = done_rx.recv_timeout(Duration::from_secs(10));
+    app_tx.send(()).ok();
+}
+
 fn bulk_byte(i: usize, k: u64) -> u8 {
     b'a' + ((i as u64).wrapping_mul(7).wrapping_add(i as u64 >> 9).wrapping_add(k) % 26) as u8
 }
@@ -820,8 +919,10 @@ pub fn main(args: &Args) {
     let bulk_only = args.get("bulk").map(|s| s.parse::<u64>().unwrap());
     let nbusy: u64 = if args.thorough() { 48 } else { 8 };
     let busy_only = args.get("busy").map(|s| s.parse::<u64>().unwrap());
+    let nslow: u64 = if args.thorough() { 64 } else { 8 };
+    let args_slowfrag = args.get("slowfrag").map(|s| s.parse::<u64>().unwrap());
     humphrey::verif::set_failpoint_handler(fp_handler);
-    let reports = par(if only.is_some() || bulk_only.is_some() || busy_only.is_some() { 1 } else { 8 }, move |shard, nsh| {
+    let reports = par(if only.is_some() || bulk_only.is_some() || busy_only.is_some() || args_slowfrag.is_some() { 1 } else { 8 }, move |shard, nsh| {
         let mut r = Report::new();
         if let Some(b) = bulk_only {
             bulk_scenario(&mut r, seed, b);
@@ -831,6 +932,17 @@ pub fn main(args: &Args) {
             let mut b = shard as u64;
             while b < nbulk {
                 bulk_scenario(&mut r, seed, b);
+                b += nsh as u64;
+            }
+        }
+        if let Some(b) = args_slowfrag {
+            slow_fragments_scenario(&mut r, seed, b);
+            return r;
+        }
+        if only.is_none() && bulk_only.is_none() && busy_only.is_none() {
+            let mut b = shard as u64;
+            while b < nslow {
+                slow_fragments_scenario(&mut r, seed, b);
                 b += nsh as u64;
             }
         }
